@@ -14,16 +14,24 @@ import (
 )
 
 type rtReq struct {
-	ID   int    `path:"id"`
-	Name string `path:"name"`
-	Page int    `form:"page"`
-	Q    string `form:"q"`
-	Tok  string `header:"X-Tok"`
-	N    int64  `header:"X-N"`
-	Body string `json:"body"`
-	Cnt  int64  `json:"cnt"`
-	Flag bool   `json:"flag"`
+	ID   int     `path:"id"`
+	Name string  `path:"name"`
+	Page int     `form:"page"`
+	Q    string  `form:"q"`
+	Tok  string  `header:"X-Tok"`
+	N    int64   `header:"X-N"`
+	Body string  `json:"body"`
+	Cnt  int64   `json:"cnt"`
+	Flag bool    `json:"flag"`
 	F    float64 `json:"f"`
+	// members with option tags: what was sent (zero values and values equal to the default
+	// included) is what must arrive
+	Size int    `form:"size,default=10"`
+	Opt  string `form:"opt,optional"`
+	Lvl  int    `json:"lvl,optional,default=2"`
+	V    bool   `json:"v,default=true"`
+	H    int64  `header:"X-H,optional,default=7"`
+	Kind string `json:"kind,options=a|b,default=a"`
 }
 
 func TestVerifRequestRoundTrip(t *testing.T) {
@@ -43,7 +51,8 @@ func TestVerifRequestRoundTrip(t *testing.T) {
 				for bi := range i64 {
 					n++
 					in := rtReq{ID: id, Name: name, Page: ints[(n+1)%len(ints)], Q: s2, Tok: strs[(si+3)%len(strs)], N: i64[bi],
-						Body: strs[(si+5)%len(strs)], Cnt: i64[(bi+1)%len(i64)], Flag: n%2 == 0, F: floats[n%len(floats)]}
+						Body: strs[(si+5)%len(strs)], Cnt: i64[(bi+1)%len(i64)], Flag: n%2 == 0, F: floats[n%len(floats)],
+						Size: []int{0, 10, 3}[n%3], Opt: []string{"", "o"}[n%2], Lvl: []int{0, 2, 5}[(n/3)%3], V: n%4 < 2, H: []int64{0, 7, -1}[(n/2)%3], Kind: []string{"a", "b"}[(n/5)%2]}
 					req, err := buildRequest(context.Background(), http.MethodPost, "http://localhost/a/:id/:name", in)
 					if err != nil {
 						c.Violation(fmt.Sprintf("%+v", in), "build", err.Error())
@@ -66,7 +75,9 @@ func TestVerifRequestRoundTrip(t *testing.T) {
 						defer func() { pan = recover() }()
 						rt.ServeHTTP(rec, sreq)
 					}()
-					c.Eval(fmt.Sprintf("name=%q/q=%q", name, s2), func() any { return map[string]any{"sent": fmt.Sprintf("%+v", in), "url": req.URL.String(), "got": fmt.Sprintf("%+v", got)} })
+					c.Eval(fmt.Sprintf("name=%q/q=%q", name, s2), func() any {
+						return map[string]any{"sent": fmt.Sprintf("%+v", in), "url": req.URL.String(), "got": fmt.Sprintf("%+v", got)}
+					})
 					inS := fmt.Sprintf("%+v", in)
 					switch {
 					case pan != nil:
